@@ -51,12 +51,46 @@ def fault_part(chk):
     chk.note_cases("recover-fault", clines, nt, sample_n=1, dist={"cases": len(clines)})
 
 
+def twice_part(chk):
+    """recover, drop, recover on both back-ends with the session's pair anywhere in the ring (0..4 confirmed earlier updates, 4 / 5 / 6
+       slots - the first recovery may erase stale parity slots): the second call returns the session again and modifies nothing"""
+    from . import v1
+    rnd = random.Random(chk.seed + 131)
+    for variant in ("matrix", "naive"):
+        scns = []
+        for _ in range(40 if chk.quick() else 600):
+            ns = rnd.choice([4, 5, 5, 6]); slot = session.DRO + 256; 
+            s = session.Scn(ns, slot, 256)
+            for _h in range(rnd.randint(0, 4)):
+                s.add("start 8 2"); s.add("seg 1 ffffffff01020304"); s.add("seg 2 0506070809101112"); s.add("done")
+                s.add("bl"); s.add("markbl int"); s.add("bl"); s.add("markbl ok")
+            s.add("start 8 4"); s.add("seg 2 1112131415161718")
+            if rnd.random() < 0.5: s.add("seg 4 2122232425262728")
+            s.add("drop")
+            s.meta = {"r1": s.add("recover")}; s.add("drop"); s.meta["h1"] = s.add("hdrs")
+            s.meta["r2"] = s.add("recover"); s.meta["h2"] = s.add("hdrs")
+            scns.append(s)
+        lines = [s.line() for s in scns]
+        impl = [v1.STRIP.sub("", x) for x in core.run_stream(core.build_harness(variant), "session", lines)]
+        for s, l, raw in zip(scns, lines, impl):
+            out = session.parse_out(raw)
+            if len(out) != len(s.ops):
+                chk.failures.append(core.Failure("harness produced no / truncated result", "session", variant, l, raw, key="crash")); break
+            r1, r2 = out[s.meta["r1"]], out[s.meta["r2"]]
+            if not r1[0].startswith("some") or not r2[0].startswith("some"):
+                chk.failures.append(core.Failure("[%s back-end] try_recover twice on a started, neither completed nor cancelled update: %s then %s" % (variant, r1[0].split(":")[0], r2[0].split(":")[0]), "session", variant, l, raw[:2000], key="c13"))
+            elif r2[1] or out[s.meta["h1"]][0] != out[s.meta["h2"]][0]:
+                chk.failures.append(core.Failure("[%s back-end] the second try_recover modifies the flash: %s" % (variant, r2[1][:3]), "session", variant, l, raw[:2000], key="c13"))
+        chk.note_cases("recover-twice[%s, oracle only]" % variant, lines, lines, sample_n=1, dist={"cases": len(lines)})
+
+
 def run(chk):
     chk.prove()
     c05.closure_part(chk, ("c13",))
     fault_part(chk)
+    twice_part(chk)
     return chk.finish(level="proof",
-        rule="recover-fault: partial deliveries, one device operation of try_recover failing once (every operation; sampled when more than 12), then try_recover again: the session is returned and the headers equal those after a fault-free recovery; ring-closure (see C05): from every reachable state recover, recover twice, recover+complete, cancel, cancel twice and the crash prefixes of cancel are executed on the real SlotManager; "
+        rule="recover-twice: both back-ends, 4 / 5 / 6 slots, 0..4 confirmed earlier updates, a partly delivered update: try_recover, drop, try_recover - same answer, no flash modification by the second call; recover-fault: partial deliveries, one device operation of try_recover failing once (every operation; sampled when more than 12), then try_recover again: the session is returned and the headers equal those after a fault-free recovery; ring-closure (see C05): from every reachable state recover, recover twice, recover+complete, cancel, cancel twice and the crash prefixes of cancel are executed on the real SlotManager; "
              "the returned session's slots are observed through where its fragment and final marks land; non-trivial/distinct = distinct states",
         trusted=core.TRUSTED_COMMON + ["C13: crash prefixes of recovery's remediation are outside the property's quantifier (DESIGN.md section 8, second observation)",
                                         "geometries with max_l = 0 write an unparseable parity header (DESIGN.md section 8); the closure uses max_l >= 1"])
